@@ -9,7 +9,7 @@ import (
 	"strings"
 	"time"
 
-	"github.com/rulego/streamsql/utils/simrt"
+	"verif.local/simrt"
 )
 
 // C20 — caller data is never modified and instances do not influence each other
